@@ -104,6 +104,22 @@ Definition ok_script (funcs : list N) (cbs : list callback) (replay_lines : list
   | None => false
   end.
 
+(* arguments and return values.  Both views decode the payload of the SAME record (C18_same_calls
+   pairs the k-th callback with the k-th replay line: same task, same timestamp, same kind); what a
+   payload decodes to is C09's subject.  The tie compares, callback by line, the text of the argument
+   list / return value the script received with the text replay prints; texts are opaque tokens here,
+   carried in the address field.  Durations: replay prints print_time_unit codes. *)
+Definition fmt_cb (c : callback) : callback :=
+  match c with
+  | CExit i d t u a n => CExit i d t (fmt_time u) a n
+  | _ => c
+  end.
+Definition ok_script_args (script_cbs replay_cbs : list callback) : bool :=
+  match strip_begin_end script_cbs with
+  | Some inner => forallb inner_ok inner && list_eqb cb_eqb (map fmt_cb inner) replay_cbs
+  | None => false
+  end.
+
 (* record time: every thread's callbacks are properly paired - a stack discipline where an
    exit closes the innermost open entry of the same function at the same depth *)
 Fixpoint paired (stk : list (N * N)) (cs : list callback) : bool :=
